@@ -34,12 +34,12 @@ def check_min_burst_cycles(is_burst, min_n_cycles=3):
     if not isinstance(is_burst, np.ndarray):
         raise ValueError("Argument 'is_burst' must be a numpy array!")
 
+    # Ensure argument is within valid range
+    check_param_range(min_n_cycles, 'min_n_cycles', (0, np.inf))
+
     # handle special case where input array is empty
     if len(is_burst) == 0:
         return is_burst
-
-    # Ensure argument is within valid range
-    check_param_range(min_n_cycles, 'min_n_cycles', (0, np.inf))
 
     # extract transition indices
     diff = np.diff(is_burst, prepend=0, append=0)
